@@ -151,6 +151,7 @@ class ScalarC(Decorated):
 
 
 class DirectivesC(InputCoercer):
+    property_ids = ('C04', 'C13')
     key = F + 'directives_coercer.py::input_directives_coercer'
     params = ['parent_node', 'node', 'value', 'ctx', 'coercer', 'directives', 'path']
     inner_params = ('coercer',)
